@@ -76,6 +76,19 @@ def reference(program, mode, switches=()):
     try:
         out = it.run()
     except interp.Expected as e:
+        # The statement does not order the errors of independent components (the library renders component templates
+        # in a deferred order): collect every error class some order could meet first; the check accepts any of them.
+        it.error_kinds = {e.exc_class}
+        it2 = interp.Interp(program, mode, switches)
+        it2._page_level_provider_used = {}
+        it2.collect_errors = True
+        try:
+            it2.run()
+        except interp.Expected as e2:
+            it2.errors.append((e2.exc_class, e2.why))
+        except (interp.Unspecified, RecursionError):
+            pass
+        it.error_kinds |= {c for c, _ in it2.errors}
         return ("exc", e.exc_class, e.why, it)
     except interp.Unspecified as e:
         return ("unspec", str(e))
